@@ -140,6 +140,19 @@ def experiment(r, kind):
         op = r.choice(["+", "-", "*"])
         body = f"def f(p, q):\n    return p {op} q + 1\n"
         return (f"f({a}, {b}) with f(p,q)=p {op} q + 1", body + f"db.Setting = f({lit(a)}, {lit(b)})\n", body + f"db.Setting = f(stack[0], stack[1])\n", {0: a, 1: b}, True)
+    if kind in ("clamp", "reassign"):
+        # a parameter / variable that gets a constant on one path only: it is NOT a constant, whatever the single assignment says
+        a = float(r.choice([-3, 0, 5, 42, 99, 100, 101, 250, 0.5]))
+        c = float(r.choice([10, 100, 50]))
+        c2 = c if r.random() < 0.6 else float(r.choice([0, 7]))
+        cmp_ = r.choice([">", "<", ">="])
+        hit = {">": a > c, "<": a < c, ">=": a >= c}[cmp_]
+        expect = (c2 if hit else a) + 1
+        if kind == "clamp":
+            body = f"def f(v):\n    if v {cmp_} {lit(c)}:\n        v = {lit(c2)}\n    return v + 1\n"
+            return (f"f({a}) with f(v): if v {cmp_} {c}: v = {c2}; return v + 1", body + f"db.Setting = f({lit(a)})\n", body + "db.Setting = f(stack[0])\n", {0: a}, True, expect)
+        return (f"x = {a}; if x {cmp_} {c}: x = {c2}; x + 1", f"x = {lit(a)}\nif x {cmp_} {lit(c)}:\n    x = {lit(c2)}\ndb.Setting = x + 1\n",
+                f"x = stack[0]\nif x {cmp_} {lit(c)}:\n    x = {lit(c2)}\ndb.Setting = x + 1\n", {0: a}, True, expect)
     if kind == "list":
         vals = [operand() for _ in range(r.randrange(2, 6))]
         k = r.randrange(len(vals))
@@ -196,7 +209,7 @@ def run(tier: str, seed: int) -> int:
             if m is None or m["opcode"] != opcode or m["value"] != int(real):
                 diffs.append({"stream": "pyEval vs get_unop_instruction", "op": op, "a": a, "model": m, "real": [opcode, repr(real)]})
     # -- the experiment ----------------------------------------------------------------------------------------------------------
-    kinds = ["binop"] * 8 + ["nested"] * 3 + ["unary", "math", "math", "named", "variable", "function", "list", "hash"]
+    kinds = ["binop"] * 8 + ["nested"] * 3 + ["unary", "math", "math", "named", "variable", "function", "list", "hash", "clamp", "reassign"]
     n = 900 if tier == "quick" else 40000
     opts_list = [whole.default_opts(append_version=False), whole.default_opts(append_version=False, inline_functions=False), whole.default_opts(append_version=False, compact=True)]
     done = 0
@@ -206,7 +219,8 @@ def run(tier: str, seed: int) -> int:
         if ex is None:
             continue
         done += 1
-        desc, src_c, src_r, mem, exact = ex
+        desc, src_c, src_r, mem, exact = ex[:5]
+        expect = ex[5] if len(ex) > 5 else None
         opts = r.choice(opts_list)
         rc = whole.compile_real(src_c, opts)
         rr = whole.compile_real(src_r, opts)
@@ -229,6 +243,9 @@ def run(tier: str, seed: int) -> int:
         if not same(vc[1], vr[1], exact):
             failures.append({"what": f"{desc}: folded at compile time it is {vc[1]!r}, computed by the chip it is {vr[1]!r}", "src": src_c, "src_runtime": src_r, "opts": opts,
                              "mem": {str(k): v for k, v in mem.items()}, "code": rc["code"], "code_runtime": rr["code"]})
+        elif expect is not None and not same(vr[1], expect, True):
+            failures.append({"what": f"{desc}: Python gives {expect!r}, both the constant and the run-time form give {vr[1]!r} (something that is not constant was evaluated at compile time)",
+                             "src": src_c, "src_runtime": src_r, "opts": opts, "mem": {str(k): v for k, v in mem.items()}, "code": rc["code"], "code_runtime": rr["code"], "expect": expect})
     # -- witnesses ---------------------------------------------------------------------------------------------------------------------
     known_ids = {f["id"] for f in chk.known}
     rc = whole.compile_real("db.Setting = (2 and 4) + 0\n", opts_list[0])
@@ -269,6 +286,8 @@ def replay(path: str) -> int:
     if "code" in rc and "code" in rr:
         vc, vr = result_value(drv, rc["code"], mem), result_value(drv, rr["code"], mem)
         bad = not (vc[0] == "value" and vr[0] == "value" and same(vc[1], vr[1], False))
+        if not bad and rp.get("expect") is not None:
+            bad = not same(vr[1], rp["expect"], True)
     drv.close()
     print(f"VIOLATION property=C03 replay={path}" if bad else "replay: holds now")
     return 1 if bad else 0
